@@ -6,6 +6,7 @@ import (
 	"math"
 	"math/rand"
 	"strings"
+	"sync"
 	"time"
 
 	chart "helm.sh/helm/v4/pkg/chart/v2"
@@ -23,6 +24,8 @@ type Conc struct {
 	sid   string
 	big   bool
 	large int // upper bound of "large" manifests in bytes
+	mu    sync.Mutex
+	cache map[contentKey]*contentEntry
 
 	NS       string
 	Names    map[string]string
@@ -118,9 +121,9 @@ func NewConc(seed int64, sc Scenario, tier string) (*Conc, error) {
 	if cid == "" {
 		cid = sc.ID
 	}
-	c := &Conc{seed: seed, sid: cid, big: sc.Big, large: 48 << 10}
+	c := &Conc{seed: seed, sid: cid, big: sc.Big, large: 48 << 10, cache: map[contentKey]*contentEntry{}}
 	if tier == "thorough" {
-		c.large = 384 << 10
+		c.large = 256 << 10
 	}
 	r := rngFor(seed, cid, "conc")
 	c.NS = []string{"default", "ns-" + randSeg(r, 5), "kube-system", "team-a", randSeg(r, 63)}[r.Intn(5)]
@@ -275,7 +278,45 @@ var hookPhases = []rspb.HookPhase{rspb.HookPhaseUnknown, rspb.HookPhaseRunning, 
 // Release builds the concrete release for the abstract tuple; the content (everything but
 // the status) is a function of (name, rev, v). The second result reports whether the content
 // holds an integer beyond 2^53.
+//
+// The heavy, read-only parts (chart, values, manifest, hooks) are generated once per (name, rev, v)
+// and shared; the Release struct, its Info and its label map are fresh on every call (the memory driver
+// keeps the caller's pointer, and no driver may see a later call's status through it).
 func (c *Conc) Release(a AbsRel) (*rspb.Release, bool) {
+	ck := contentKey{a.Name, a.Rev, a.V}
+	c.mu.Lock()
+	ent, ok := c.cache[ck]
+	if !ok {
+		rel, big := c.generate(AbsRel{Name: a.Name, Rev: a.Rev, St: "deployed", V: a.V})
+		ent = &contentEntry{rel: rel, big: big}
+		c.cache[ck] = ent
+	}
+	c.mu.Unlock()
+	rel := *ent.rel
+	info := *ent.rel.Info
+	info.Status = rspb.Status(c.Stat[a.St])
+	rel.Info = &info
+	if ent.rel.Labels != nil {
+		rel.Labels = make(map[string]string, len(ent.rel.Labels))
+		for k, v := range ent.rel.Labels {
+			rel.Labels[k] = v
+		}
+	}
+	return &rel, ent.big
+}
+
+type contentKey struct {
+	name string
+	rev  int
+	v    int
+}
+
+type contentEntry struct {
+	rel *rspb.Release
+	big bool
+}
+
+func (c *Conc) generate(a AbsRel) (*rspb.Release, bool) {
 	r := rngFor(c.seed, c.sid, "content", a.Name, fmt.Sprint(a.Rev), fmt.Sprint(a.V))
 	big := false
 	name := c.Names[a.Name]
@@ -327,10 +368,10 @@ func (c *Conc) Release(a AbsRel) (*rspb.Release, bool) {
 
 	// manifest: small / medium / large, unicode
 	var size int
-	switch p := r.Intn(20); {
-	case p < 12:
+	switch p := r.Intn(40); {
+	case p < 26:
 		size = 50 + r.Intn(400)
-	case p < 18:
+	case p < 39:
 		size = 2000 + r.Intn(6000)
 	default:
 		size = c.large/2 + r.Intn(c.large/2)
@@ -386,10 +427,7 @@ func (c *Conc) Release(a AbsRel) (*rspb.Release, bool) {
 }
 
 func (c *Conc) randValuesNoBig(r *rand.Rand, big *bool) map[string]interface{} {
-	saved := c.big
-	c2 := *c
-	c2.big = false
-	_ = saved
+	c2 := &Conc{seed: c.seed, sid: c.sid, big: false, large: c.large}
 	return c2.randValues(r, big)
 }
 
